@@ -125,6 +125,7 @@ func defaultCfg(spec HarnessSpec, tier int, deadline time.Time, workers int, ver
 		cfg.MaxSteps = spec.MaxSteps
 	}
 	cfg.MaxPaths = spec.MaxPaths[tier]
+	cfg.HangCheck = spec.HangChk
 	return cfg
 }
 
@@ -365,12 +366,13 @@ func cmdRun(args []string) int {
 	maxpaths := fs.Int("maxpaths", 0, "")
 	verbose := fs.Bool("v", false, "")
 	doReplay := fs.Bool("replay", false, "replay violations natively")
+	hang := fs.Bool("hangcheck", false, "report unwinding failures as hang candidates")
 	fs.Parse(args)
 	tier := 0
 	if *tierS == "thorough" {
 		tier = 1
 	}
-	spec := HarnessSpec{Dir: *dir, Name: *name, Mode: *mode, Unwind: *unwind, MaxPaths: [2]int{*maxpaths, *maxpaths}}
+	spec := HarnessSpec{Dir: *dir, Name: *name, Mode: *mode, Unwind: *unwind, MaxPaths: [2]int{*maxpaths, *maxpaths}, HangChk: *hang}
 	rs, info, err := runHarnesses([]HarnessSpec{spec}, tier, time.Time{}, *workers, *verbose)
 	if err != nil {
 		fmt.Println("LOAD ERROR:", err)
